@@ -3,5 +3,5 @@ EXTENDS BatchIds, Json
 IdsQuick == {"none", "i0", "i1", "s_1"}
 IdsFull  == {"none", "i0", "i1", "s_1", "s_empty"}
 EmitScn == (Bound /\ hist # <<>> /\ (Len(hist) = MaxOps \/ SumIds(hist) >= MaxIds - 1)) =>
-             PrintT(<<"SCN", ToJson([kind |-> kind, hist |-> hist])>>)
+             PrintT(<<"SCN", ToJson([kind |-> kind, strict |-> strict, hist |-> hist])>>)
 =============================================================================
